@@ -15,7 +15,10 @@ Metas == { Meta("prog", NoM, NoM),
            Meta("test_1", [name |-> "gaussian"] @@ NoArgs, NoM),
            Meta("p2", [name |-> "dev", hasargs |-> TRUE, args |-> <<>>,
                        kw |-> <<Kw("shots", I(10)), Kw("flag", [t |-> "bool", b |-> TRUE]), Kw("l", LstE(<<I(1), F(5, 2)>>)), Kw("s", [t |-> "str", s |-> "x"])>>],
-                      [name |-> "foo", hasargs |-> TRUE, args |-> <<>>, kw |-> <<Kw("copies", I(3))>>]) }
+                      [name |-> "foo", hasargs |-> TRUE, args |-> <<>>, kw |-> <<Kw("copies", I(3))>>]),
+           Meta("p3", [name |-> "dev", hasargs |-> TRUE, args |-> <<>>,
+                       kw |-> <<Kw("cutoffs", LstE(<<I(5), I(7)>>)), Kw("labels", LstE(<<[t |-> "str", s |-> "a"], [t |-> "str", s |-> "b"]>>)), Kw("shots", I(3))>>],
+                      [name |-> "foo", hasargs |-> TRUE, args |-> <<>>, kw |-> <<Kw("u", LstE(<<I(1)>>)), Kw("v", LstE(<<F(1, 2), I(2)>>))>>]) }
 
 Items == {
   [t |-> "var", ty |-> "float", x |-> "al", e |-> F(1, 2)],
@@ -35,10 +38,13 @@ Items == {
   Stmt("R", TRUE, <<[t |-> "idx", x |-> "A", e |-> I(1)]>>, <<>>, <<[t |-> "idx", x |-> "A", e |-> I(3)]>>, "none"),
   Stmt("MeasureHomodyne", TRUE, <<>>, <<Kw("phi", [t |-> "neg", a |-> Var("y")]), Kw("select", Var("n"))>>, <<Var("n")>>, "none"),
   Stmt("K", TRUE, <<>>, <<>>, <<I(2)>>, "sq"),
+  Stmt("MeasureFock", TRUE, <<>>, <<Kw("select", LstE(<<I(0), I(2)>>)), Kw("dark_counts", LstE(<<[t |-> "bool", b |-> TRUE], F(1, 2)>>)), Kw("x", LstE(<<I(7)>>))>>, <<I(0), I(1)>>, "sq"),
   Stmt("S2gate", TRUE, <<Var("z"), Var("s"), Var("b")>>, <<>>, <<[t |-> "bin", op |-> "+", l |-> Var("n"), r |-> I(1)]>>, "none"),
   [t |-> "for", ty |-> "int", x |-> "i", hdr |-> [t |-> "range", a |-> 0, b |-> 3, c |-> 2, hasc |-> TRUE],
      body |-> <<Stmt("L", TRUE, <<Var("i")>>, <<>>, <<Var("i")>>, "none")>>],
   [t |-> "for", ty |-> "float", x |-> "f", hdr |-> [t |-> "vals", br |-> "sq", xs |-> <<F(1, 2), I(2)>>],
-     body |-> <<Stmt("Rf", TRUE, <<Var("f")>>, <<Kw("k", Var("f"))>>, <<I(0)>>, "none"), Stmt("MeasureFock", FALSE, <<>>, <<>>, <<I(1)>>, "none")>>]
+     body |-> <<Stmt("Rf", TRUE, <<Var("f")>>, <<Kw("k", Var("f"))>>, <<I(0)>>, "none"), Stmt("MeasureFock", FALSE, <<>>, <<>>, <<I(1)>>, "none")>>],
+  [t |-> "for", ty |-> "int", x |-> "j", hdr |-> [t |-> "vals", br |-> "none", xs |-> <<I(1), I(4)>>],
+     body |-> <<Stmt("Lk", TRUE, <<>>, <<Kw("a", LstE(<<Var("j"), I(0)>>)), Kw("b", LstE(<<I(9), Var("j")>>))>>, <<Var("j")>>, "none")>>]
 }
 =============================================================================
